@@ -982,8 +982,8 @@ def explore(ctx: runner.Ctx):
         f"{n_laws} identity/law instances compared over the same sets"
         + (" (quick tier: every third law instance, rotating with the seed)" if ctx.tier == "quick" else ""))
     # 4. sampled deeper expressions / stacks, and end-to-end marking
-    ctx.given(st_pure_case(), lambda case: check_case(ctx, case), ctx.budget(8000, 240000), seed_offset=1)
-    ctx.given(st_e2e_case(), lambda case: check_case(ctx, case), ctx.budget(800, 24000), seed_offset=2)
+    ctx.given(st_pure_case(), lambda case: check_case(ctx, case), ctx.budget(8000, 200000), seed_offset=1)
+    ctx.given(st_e2e_case(), lambda case: check_case(ctx, case), ctx.budget(800, 20000), seed_offset=2)
 
 
 RULE = ("table: one case per (enumerated expression, stack set), every (expression, stack) pair of the set is one "
